@@ -1207,18 +1207,11 @@ where
                 result.union_operand(first);
                 return Ok(result);
             }
-            Some(0x26 /* & */) => {
-                self.consume('&');
-                if self.peek() == Some(0x26 /* & */) {
-                    self.consume('&');
-                    result.union_operand(first.clone());
-                    ClassSetOperator::Intersection
-                } else {
-                    // A single '&' is an ordinary class character; the first operand stays in the union.
-                    result.union_operand(first.clone());
-                    result.codepoints.add_one(0x26 /* & */);
-                    ClassSetOperator::Union
-                }
+            // ClassIntersection: `&&` (a single `&` is an ordinary class character and is
+            // handled, possibly as the start of a range, by the union loop below).
+            Some(0x26 /* & */) if self.try_consume_str("&&") => {
+                result.union_operand(first.clone());
+                ClassSetOperator::Intersection
             }
             Some(0x2D /* - */) => {
                 self.consume('-');
@@ -1292,6 +1285,10 @@ where
             // ClassIntersection :: ClassSetOperand && [lookahead ≠ &]
             ClassSetOperator::Intersection => {
                 loop {
+                    // ClassSetOperand && [lookahead != &] ClassSetOperand
+                    if self.peek() == Some(0x26 /* & */) {
+                        return error("Unexpected character in class set intersection");
+                    }
                     let operand = self.consume_class_set_operand(in_negated_class)?;
                     result.intersect_operand(operand);
                     match self.next() {
@@ -1993,6 +1990,11 @@ where
                     return None;
                 }
             }
+            // from_str_radix would also accept a leading sign.
+            if !s.chars().all(|c| c.is_ascii_hexdigit()) {
+                self.input = orig_input;
+                return None;
+            }
             match u16::from_str_radix(&s, 16) {
                 Ok(u) => {
                     if (0xD800..=0xDBFF).contains(&u) {
@@ -2017,6 +2019,9 @@ where
                                 s.push(c);
                             }
 
+                            if !s.chars().all(|c| c.is_ascii_hexdigit()) {
+                                return None;
+                            }
                             let uu = u16::from_str_radix(&s, 16).ok()?;
                             let ch = char::decode_utf16([u, uu]).next()?.ok()?;
                             Some(u32::from(ch))
